@@ -8,6 +8,7 @@
    injected messages; all statements hold for every script. *)
 From Coq Require Import List NArith.
 From DesVerif Require Import Proc.Model Proc.Shape Proc.Corollaries Proc.Trace Proc.Emit Proc.Order Proc.Term.
+From DesVerif Require Import Proc.ModelCq Proc.CqSim Proc.CqInst.
 Import ListNotations.
 Open Scope N_scope.
 
@@ -112,6 +113,55 @@ Theorem C14_run_terminates : forall sc, snd (run_script sc) = true.
 Proof. exact run_terminates. Qed.
 Print Assumptions C14_run_terminates.
 
+(* ---- composition with C01: the same event loop over the CONCRETE calendar queue ----
+   [run_script_cq n t] / [run_cq n t] (coq/Proc/ModelCq.v) thread des-cqueue's calendar queue
+   (CQueue.Model.cq with n buckets of width t, entries carrying an index into an event store)
+   where [run_script] / [run] thread the two-list specification.  Through the refinement
+   relation of C01 (R_add, R_fetch, R_new_at) both print the same, for every n, t >= 1. *)
+Theorem C14_run_script_over_cqueue : forall n t sc, n <> 0 -> t <> 0 -> run_script_cq n t sc = run_script sc.
+Proof. exact run_script_over_cqueue. Qed.
+Print Assumptions C14_run_script_over_cqueue.
+
+Theorem C14_run_over_cqueue_eq_run_over_spec : forall n t input, n <> 0 -> t <> 0 -> run_cq n t input = run input.
+Proof. exact run_over_cqueue. Qed.
+Print Assumptions C14_run_over_cqueue_eq_run_over_spec.
+
+(* the same over des-cqueue's own specification type (CQueue/Spec.v [sp], with the event store) *)
+Theorem C14_run_over_cqueue_spec : forall sc, run_script_sp sc = run_script sc.
+Proof. exact run_over_sp_eq. Qed.
+Print Assumptions C14_run_over_cqueue_spec.
+
+(* brackets never interleave in the run over the calendar queue *)
+Theorem C14_brackets_do_not_interleave_cq : forall n t sc, n <> 0 -> t <> 0 -> Brackets sc (flat_log_cq n t sc).
+Proof. intros n t sc Hn Ht. rewrite flat_log_over_cqueue by assumption. apply flat_log_brackets. Qed.
+Print Assumptions C14_brackets_do_not_interleave_cq.
+
+(* what an event adds to the calendar queue: its send records, in log order, through
+   CQueue::add ([cq_add]), then the restart event -- for every state of the queue *)
+Theorem C14_emitted_in_program_order_cq : forall sc (g : cworld) now ev m, ev_module ev = Some m ->
+  g_q (fst (process_cq sc g now ev)) = cq_after now m (flat_map item_log (snd (process_cq sc g now ev))) (g_q g).
+Proof. intros sc g now ev m. exact (gprocess_q cqs cq_add sc g now ev m). Qed.
+Print Assumptions C14_emitted_in_program_order_cq.
+
+(* two sends of one event with arrival times t1 <= t2 leave the calendar queue in program
+   order: [dispatch_order_cq] is what draining the queue with fetch_next yields *)
+Theorem C14_sends_keep_order_cq : forall n t sc g now ev q' m a p1 b p2 c,
+  n <> 0 -> t <> 0 ->
+  ReachCq n t sc g -> cq_fetch (g_q g) = Some (now, ev, q') -> ev_module ev = Some m ->
+  pend_of now (flat_map item_log (snd (process_cq sc (gset_q cqs g q') now ev))) = a ++ p1 :: b ++ p2 :: c ->
+  fst p1 <= fst p2 ->
+  Subseq [p1; p2] (dispatch_order_cq (g_q (fst (process_cq sc (gset_q cqs g q') now ev)))).
+Proof. exact sends_keep_order_cq. Qed.
+Print Assumptions C14_sends_keep_order_cq.
+
+(* [ReachCq] is what the main loop of [run_script_cq] goes through *)
+Theorem C14_loop_states_reachable_cq : forall n t sc k,
+  match Common.Fuel.iter_nat k (loop_step_cq sc)
+          (fst (sim_start_cq sc (init_world_cq n t sc)), 0, snd (sim_start_cq sc (init_world_cq n t sc))) with
+  | inl st | inr st => ReachCq n t sc (fst (fst st)) end.
+Proof. exact loop_states_reach_cq. Qed.
+Print Assumptions C14_loop_states_reachable_cq.
+
 (* Non-vacuity: module 0 has the stack [pass; modify +5; consume; pass], module 1 the stack
    [modify +1; modify +10] and a handler that sends twice; both receive payload 7 at t = 3. *)
 Definition ex_elem (a : act) : elem := {| el_act := a; el_start := []; el_in := []; el_end := [] |}.
@@ -157,4 +207,10 @@ Example C14_nonvacuous_panic :
   skipn 13 (flat_log ex_panic_script) =
   [mk 0 (Elem 0) (HStart 4); mk 0 (Elem 1) (HStart 4); mk 0 Handler (HSimEnd 4); mk 0 (Elem 1) HEnd; mk 0 (Elem 0) HEnd;
    mk 1 Handler (HSimEnd 4)].
+Proof. vm_compute. split; reflexivity. Qed.
+
+(* Non-vacuity of the composition: the model over a calendar queue of 3 buckets of width 2 ns
+   (year wraps, scans) is executable and prints the same log. *)
+Example C14_nonvacuous_cq :
+  run_script_cq 3 2 ex_script = run_script ex_script /\ length (flat_log_cq 3 2 ex_script) = 62%nat.
 Proof. vm_compute. split; reflexivity. Qed.
